@@ -55,7 +55,9 @@ class SimThread:
 
 
 class SimLock:
-    """A lock whose acquisition parks the simulated thread under scheduler control."""
+    """A lock handed to the library by the simulated CLIENT (the `lock=` argument). It has
+    the full threading.Lock interface (acquire/release/locked and the context-manager
+    protocol); a simulated thread that finds it taken parks under scheduler control."""
 
     def __init__(self, sched, name="lock"):
         self.sched = sched
@@ -63,24 +65,38 @@ class SimLock:
         self.owner = None
         self.acquisitions = 0
 
-    def __enter__(self):
+    def acquire(self, blocking=True, timeout=-1):
         s = self.sched
         t = s.current
+        if t is None or threading.current_thread() is not t.thread:
+            raise RuntimeError("SimLock used outside a simulated thread")
         s.yield_point(f"lock.acquire:{self.name}")
         while self.owner is not None:
+            if not blocking:
+                return False
             s.ctx.probe("lock_contended")
             t.blocked_on = self
             s.switch_away(f"lock.wait:{self.name}")
         self.owner = t
         self.acquisitions += 1
-        return self
+        return True
 
-    def __exit__(self, *exc):
+    def release(self):
         self.owner = None
         for t in self.sched.threads:
             if t.blocked_on is self:
                 t.blocked_on = None
         self.sched.yield_point(f"lock.release:{self.name}")
+
+    def locked(self):
+        return self.owner is not None
+
+    def __enter__(self):
+        self.acquire()
+        return self
+
+    def __exit__(self, *exc):
+        self.release()
         return False
 
 
@@ -165,7 +181,8 @@ def install_lock_seam():
 
 
 class Sched:
-    def __init__(self, ctx, switch_eighths=1, trace_files=("readers", "utils.py"), max_steps=200000):
+    def __init__(self, ctx, switch_eighths=1, trace_files=("readers", "utils.py"), max_steps=200000,
+                 tool_id=4, step_mode=False):
         self.ctx = ctx
         self.tape = ctx.tape
         self.switch = switch_eighths
@@ -177,7 +194,9 @@ class Sched:
         self.error = None
         from . import linemon
         install_lock_seam()
-        self.mon = linemon.get_monitor("sched-" + "+".join(trace_files), 4, tuple(trace_files))
+        self.mon = linemon.get_monitor("sched-" + "+".join(trace_files), tool_id, tuple(trace_files))
+        self.step_mode = step_mode      # hand control back to the driver whenever a thread finishes
+        self.started = False
         self.switches = 0
         self.last_site = None
         self.abort = False
@@ -258,6 +277,10 @@ class Sched:
     def _thread_finished(self, t):
         if self.abort:
             return
+        if self.step_mode:
+            self.current = None
+            self.main_ev.set()
+            return
         nxt = self._runnable()
         if nxt:
             i = self.tape.draw(len(nxt), "sched.pick_after_exit") if len(nxt) > 1 else 0
@@ -268,6 +291,42 @@ class Sched:
                 self.error = Deadlock("threads remain but none is runnable")
             self.current = None
             self.main_ev.set()
+
+    # -- step mode: a driver (Engine A) resumes one thread at a time ------------------
+    def start(self):
+        self.mon.callback = self._on_line
+        ACTIVE["sched"] = self
+        self.started = True
+
+    def spawn_started(self, name, fn):
+        t = self.spawn(name, fn)
+        t.thread.start()
+        return t
+
+    def resume(self, t, wall_timeout=int(os.environ.get("VERIF_SCHED_TIMEOUT", "120"))):
+        """Let `t` run (it may hand the baton to other live threads) until some thread
+        finishes; then control is back with the driver."""
+        self.main_ev.clear()
+        self.current = t
+        t.ev.set()
+        if not self.main_ev.wait(wall_timeout):
+            raise RuntimeError(f"simulated task threads hung (wall timeout); last site {self.last_site}")
+        if self.error is not None:
+            raise self.error
+
+    def finish(self):
+        """Abandon whatever is still parked and uninstall."""
+        self.abort = True
+        self.current = None
+        for t in self.threads:
+            if not t.done and t.thread.is_alive():
+                t.ev.set()
+        for t in self.threads:
+            if t.thread.is_alive():
+                t.thread.join(5)
+        self.mon.callback = None
+        if ACTIVE["sched"] is self:
+            ACTIVE["sched"] = None
 
     def run(self, wall_timeout=int(os.environ.get("VERIF_SCHED_TIMEOUT", "120"))):
         """Run all spawned threads to completion under the tape's schedule."""
